@@ -411,6 +411,57 @@ def check_lib(case):
     return nt, ["library-exceptions"] + labels
 
 
+# ---- exception classes with two bases -----------------------------------------------------------------------------------
+
+class Both(SubA, Other):
+    """matches a filter naming Base or SubA, and one naming Other"""
+
+
+class OsOther(OSError, Other):
+    pass
+
+
+def _diamond_classes():
+    import io
+    import ssl
+    # io.UnsupportedOperation is (OSError, ValueError); ssl.SSLCertVerificationError is (SSLError, ValueError)
+    return [Base, SubA, Other, OSError, ValueError, Both, OsOther, io.UnsupportedOperation, ssl.SSLCertVerificationError]
+
+
+def diamond_cases(tier, seed):
+    """an exception may match retry_for through one base class and do_not_retry_for through another (the two filters themselves
+    share no class): do_not_retry_for wins, as for any other exception"""
+    n = len(_diamond_classes())
+    filt = [c for r in (0, 1, 2) for c in itertools.combinations(range(5), r)]
+    pairs = [(rf, dn) for rf in filt for dn in filt if not set(rf) & set(dn)]
+    for attempts in (2, 3):
+        seqs = set()
+        for full in itertools.product(range(0, n + 1), repeat=attempts):
+            if attempts == 3 and not any(o > 5 for o in full):
+                continue
+            if 0 in full:
+                full = full[:full.index(0) + 1]
+            seqs.add(full)
+        for seq in sorted(seqs):
+            for pi, (rf, dn) in enumerate(pairs):
+                if tier == "quick" and attempts == 3 and (pi + sum(seq)) % 3:
+                    continue
+                yield (attempts, seq, rf, dn, pi % 3, (0, 0.25)[(pi + len(seq)) % 2], (pi + attempts) % 3)
+
+
+def check_diamond(case):
+    global CLASSES
+    saved = CLASSES
+    CLASSES = _diamond_classes()
+    try:
+        nt, labels = check(case)
+    finally:
+        CLASSES = saved
+    cls = _diamond_classes()
+    two = any(o > 5 for o in case[1])
+    return nt, ["two-base-exception" if two else "one-base-exceptions"] + labels
+
+
 # ---- results that are exception objects ---------------------------------------------------------------------------
 
 def returned_exception_cases(tier, seed):
@@ -873,6 +924,7 @@ PARTS = [
     Part("long-lives", "enum", check_long_life, cases=long_life_cases, shards={"quick": 4, "thorough": 8}),
     Part("calls-in-flight-together", "enum", check_inflight, cases=inflight_cases, exhaustive=True),
     Part("around-the-library's-clients", "enum", check_real, cases=real_cases, exhaustive=True),
+    Part("exceptions-with-two-bases", "enum", check_diamond, cases=diamond_cases, exhaustive=True, distinct_by_construction=True),
     Part("library-exception-classes", "enum", check_lib, cases=lib_cases, exhaustive=True, distinct_by_construction=True),
     Part("results-that-are-exceptions", "enum", check_returned_exception, cases=returned_exception_cases, exhaustive=True),
     Part("calls-from-an-except-block", "enum", check, cases=ambient_cases, exhaustive=True, distinct_by_construction=True),
